@@ -651,6 +651,10 @@ func genBase(r *sim.Rand, room int) (bool, uint32) {
 		return true, 0
 	}
 	bank := uint32(r.Intn(256))
+	if room > 0x10000 {
+		// a program of several banks: it has to end inside the 24-bit address space
+		bank = uint32(r.Intn(256 - (room >> 16) - 1))
+	}
 	maxOff := 0x10000 - room
 	if maxOff < 1 {
 		maxOff = 1
